@@ -189,13 +189,10 @@ func shapeLabels(e xast.Expr) []string {
 }
 
 // skipKnown reports whether e falls into the exclusion class of a confirmed
-// known finding (and counts the exclusion). Classes are switched on by the
-// driver only while the finding's replay still reproduces.
+// known finding (and counts the exclusion). No value property draws round(), and
+// C15 handles KF-round narrowly in its oracle, so there is nothing to skip today;
+// the hook stays for future classes.
 func skipKnown(u *harness.Unit, e xast.Expr) bool {
-	if harness.Excluded("round-int") && xast.HasCall(e, "round") {
-		u.Exclude("round-int")
-		return true
-	}
 	return false
 }
 
